@@ -157,7 +157,23 @@ func c05CanonPrint(out string) string {
 	return sb.String()
 }
 
+// c05CanonDump sorts the items of a days dump (`ok <min> <max> item|item|…`, see loadtext.go / Driver/Load.lean):
+// the real loader delivers the files in goroutine arrival order, the model depth first; the property — and
+// C05_layout_arrival — is about the multiset per (day, kind), and every item carries its kind letter and its date.
+func c05CanonDump(d string) string {
+	d = canonPanic(d)
+	f := strings.SplitN(d, " ", 4)
+	if len(f) != 4 || f[0] != "ok" || f[3] == "-" {
+		return d
+	}
+	items := strings.Split(f[3], "|")
+	sort.Strings(items)
+	return strings.Join(f[:3], " ") + " " + strings.Join(items, "|")
+}
+
 type c05Variant struct {
+	FS     string // the include tree as the loader can see it, wire form of c14FS ("" = not expressible / too large)
+	Dump   string // the days the REAL loader builds from Root (in-process), format of implLoadDump
 	Order  []int
 	Root   string
 	Shape  string
@@ -279,6 +295,15 @@ func runC05(c *Ctx) {
 		vr.BalC, vr.Bal, e2 = runKnut(c.KnutBin, 20*time.Second, env, append(args, vr.Root)...)
 		vr.PrC, vr.Print, e3 = runKnut(c.KnutBin, 20*time.Second, env, "print", vr.Root)
 		vr.ErrOut = e1 + e2 + e3
+		// the journal itself: what the real loader (journal.FromPath, in-process) builds from the tree, and the tree as the
+		// model's file system (read back from disk like C14 does). A panic in a loader goroutine cannot be recovered
+		// in-process; the subprocess runs above would have shown it.
+		if !strings.Contains(vr.ErrOut, "panic") {
+			if fs, ok := c14FS(filepath.Dir(vr.Root), []string{"main.knut"}, nil); ok {
+				vr.FS = fs
+				vr.Dump = implLoadDump(vr.Root)
+			}
+		}
 	})
 	os.RemoveAll(base)
 	bt := c.NewBatch()
@@ -298,6 +323,18 @@ func runC05(c *Ctx) {
 		c.Class(fmt.Sprintf("c05/check%d/%s/shapes%d/n%s", b0.Check, flagClass(k.f), len(shapes), bucket(len(k.j.Dirs))))
 		if k.idx < 2 {
 			c.Sample(map[string]any{"journal": text, "args": strings.Join(k.f.Args(), " "), "variants": len(k.vars)})
+		}
+		// Layout.journalOf (loader model on the tree read back from disk, elaboration, builder) against the days the real
+		// loader built from the same tree, for every variant including the original
+		for vi, vr := range k.vars {
+			if vr.FS == "" {
+				continue
+			}
+			vr := vr
+			in := map[string]any{"journal": text, "variant": vi, "order": vr.Order, "shape": vr.Shape, "fs": vr.FS}
+			bt.Add(func(model string) {
+				c.Compare("layout", k.idx, "journal-of", in, c05CanonDump(vr.Dump), c05CanonDump(model))
+			}, "c05journal", Hex("main.knut"), vr.FS)
 		}
 		for vi, vr := range k.vars[1:] {
 			in := map[string]any{"journal": text, "args": strings.Join(k.f.Args(), " "), "variant": vi + 1, "order": vr.Order, "shape": vr.Shape, "schedule_seed": vr.Seed}
